@@ -10,6 +10,7 @@ import (
 
 	. "github.com/apmckinlay/gsuneido/core"
 	"github.com/apmckinlay/gsuneido/util/ints"
+	"github.com/apmckinlay/gsuneido/util/verif"
 )
 
 var timestamp SuDate
@@ -43,6 +44,9 @@ func ticker() {
 			// only update timestamp forwards
 			timestamp = t
 		}
+		if verif.On {
+			verif.Event("TsTick", "t", t, "ts", timestamp)
+		}
 		tsLock.Unlock()
 	}
 }
@@ -56,6 +60,9 @@ func Timestamp() SuDate {
 		timestamp = timestamp.AddMs(TsInitialBatch)
 	} else {
 		timestamp = timestamp.AddMs(1)
+	}
+	if verif.On {
+		verif.Event("TsServer", "ret", ts, "next", timestamp)
 	}
 	return ts
 }
